@@ -741,6 +741,83 @@ func (x *exec) structToView(u Unit, o lib, b []byte, root chunk) {
 			x.viol("C04", "struct-to-view-bytes/"+u.Type, fmt.Sprintf("%s (%s): value.View() serializes to %d bytes (err %v), the value to %d", u.Type, x.presetName(), vb.Len(), err, len(b)))
 		}
 	}
+	x.subViewGetters(u, o, outs[0])
+}
+
+// subViewGetters (C15: typed sub-views read the element they name): the view made from a container
+// value has getters addressing fields by position; each getter named like a field of the struct form
+// must return that field's value.
+func (x *exec) subViewGetters(u Unit, o lib, view reflect.Value) {
+	sv := reflect.ValueOf(o.v)
+	if sv.Kind() != reflect.Ptr || sv.Elem().Kind() != reflect.Struct {
+		return
+	}
+	st := sv.Elem()
+	for i := 0; i < st.NumField(); i++ {
+		f := st.Type().Field(i)
+		if f.PkgPath != "" {
+			continue
+		}
+		g := view.MethodByName(f.Name)
+		if !g.IsValid() {
+			continue
+		}
+		gt := g.Type()
+		var args []reflect.Value
+		callable := true
+		for k := 0; k < gt.NumIn(); k++ {
+			if gt.In(k) == specPtrType {
+				args = append(args, reflect.ValueOf(x.spec))
+			} else {
+				callable = false
+			}
+		}
+		if !callable || gt.NumOut() == 0 {
+			continue
+		}
+		var outs []reflect.Value
+		if p := guard(func() { outs = g.Call(args) }); p != "" {
+			x.viol("C15", "sub-view-getter-panics/"+u.Type+"."+f.Name, fmt.Sprintf("%s (%s): getter %s of the view of a valid value panics: %s", u.Type, x.presetName(), f.Name, p))
+			return
+		}
+		if last := outs[len(outs)-1]; len(outs) > 1 && last.Type().Implements(errorType) && !last.IsNil() {
+			x.viol("C15", "sub-view-getter-fails/"+u.Type+"."+f.Name, fmt.Sprintf("%s (%s): getter %s of the view of a valid value fails: %v", u.Type, x.presetName(), f.Name, last.Interface()))
+			return
+		}
+		got, want := outs[0], st.Field(i)
+		if got.Type() == want.Type() {
+			x.res.Stat("sub_view_getters", 1)
+			if !reflect.DeepEqual(got.Interface(), want.Interface()) && !(got.Kind() == reflect.Slice && got.Len() == 0 && want.Len() == 0) {
+				x.viol("C15", "sub-view-getter/"+u.Type+"."+f.Name, fmt.Sprintf("%s (%s): the view's getter %s returns %v, the value it was made from holds %v", u.Type, x.presetName(), f.Name, got.Interface(), want.Interface()))
+				return
+			}
+			continue
+		}
+		// a getter that returns a sub-view: its bytes are the field's bytes
+		gs, ok := got.Interface().(interface {
+			Serialize(w *codec.EncodingWriter) error
+		})
+		if !ok || !want.CanAddr() || (got.Kind() == reflect.Ptr && got.IsNil()) {
+			x.res.Stat("sub_view_getters_not_comparable/"+u.Type+"."+f.Name, 1)
+			continue
+		}
+		var gb, wb bytes.Buffer
+		fl := lib{x.spec, want.Addr().Interface()}
+		var werr, gerr error
+		if p := guard(func() { werr = fl.serialize(&wb) }); p != "" || werr != nil {
+			x.res.Stat("sub_view_getters_not_comparable/"+u.Type+"."+f.Name, 1)
+			continue
+		}
+		if p := guard(func() { gerr = gs.Serialize(codec.NewEncodingWriter(&gb)) }); p != "" {
+			x.viol("C15", "sub-view-getter-panics/"+u.Type+"."+f.Name, fmt.Sprintf("%s: serializing the sub-view returned by %s panics: %s", u.Type, f.Name, p))
+			return
+		}
+		x.res.Stat("sub_view_getters", 1)
+		if gerr != nil || !bytes.Equal(gb.Bytes(), wb.Bytes()) {
+			x.viol("C15", "sub-view-getter/"+u.Type+"."+f.Name, fmt.Sprintf("%s (%s): the sub-view returned by getter %s encodes as %s (err %v), the field it names as %s", u.Type, x.presetName(), f.Name, hex8(gb.Bytes()), gerr, hex8(wb.Bytes())))
+			return
+		}
+	}
 }
 
 func (x *exec) presetName() string {
